@@ -2,5 +2,5 @@
 From Coq Require Import Extraction ExtrOcamlBasic ZArith NArith.
 From Tele Require Import Model.FileRest Model.FileFault.
 Extraction Language OCaml.
-Extraction "fault_model.ml" lookup new_counter add_cell wraps table_end place32 head_off fnv rd32 rd64
+Extraction "fault_model.ml" lookup new_counter add_cell table_end place32 head_off fnv rd32 rd64
   scenario rotate1 extend Z.of_N Z.to_N.
